@@ -34,7 +34,7 @@ pub mod k1_misc;
 mod k1_mem;
 pub mod k1_views;
 mod t_sendsync;
-mod k1_loops;
+pub mod k1_loops;
 mod k2_insert;
 mod k2_remove;
 mod k2_range;
